@@ -69,6 +69,7 @@ def run(ctx):
         import c06
         ctx.guard(c06.len_threaded, ctx, cfg, fs, 'R.repetition')
         ctx.guard(c06.count_counts, ctx, cfg, fs, 'R.repetition')
+        ctx.guard(c06.loop_conditions, ctx, cfg, fs, 'R.repetition')
         import c08, c10
         # a value that came from the variant consumed nothing: the wrappers must still treat a failed conversion / guard of it as final
         ctx.guard(c08.keep_only, ctx, lambda: c06.k3(ctx, cfg, fs, c06.k1(ctx, cfg, fs)),
